@@ -169,3 +169,333 @@ package memory
 //@   loop 0 invariant[sent-are-visited] forall j int :: {names.#out[j]} old(names.#len) <= j && j < names.#len ==> $vis[names.#out[j]] && has(s.graphs, names.#out[j])
 //@   loop 0 invariant[no-duplicates] forall i int, j int :: {names.#out[i], names.#out[j]} old(names.#len) <= i && i < j && j < names.#len ==> names.#out[i] != names.#out[j]
 //@   loop 0 invariant[visited-are-sent] forall k string :: {$vis[k]} $vis[k] ==> exists j int :: {names.#out[j]} old(names.#len) <= j && j < names.#len && names.#out[j] == k
+
+// ---- Lookup options (C09) and predicate matching (C02) -----------------------------------
+// inst(x): the instant of a *time.Time. Pmatch: the predicate handed to a lookup matches a stored
+// predicate of the same kind and, when temporal, the same instant (the identifier is matched by the
+// bucket). InWindow: closed interval between the anchors, absent side unbounded, immutable always kept.
+//@ spec macro inst(x *time.Time) Int = tinst(deref(x))
+//@ spec macro Pmatch(q *predicate.Predicate, p *predicate.Predicate) Bool = q == nil || ((q.anchor == nil) == (p.anchor == nil) && (q.anchor != nil ==> inst(q.anchor) == inst(p.anchor)))
+//@ spec macro InWindow(o *storage.LookupOptions, p *predicate.Predicate) Bool = p.anchor == nil || ((o.LowerAnchor == nil || inst(o.LowerAnchor) <= inst(p.anchor)) && (o.UpperAnchor == nil || inst(p.anchor) <= inst(o.UpperAnchor)))
+//@ spec macro wfChecker(c *checker) Bool = c != nil && c.o != nil && (c.op == nil ==> c.ota == nil) && (c.op != nil ==> c.ota == c.op.anchor)
+
+//@ props C09 C02
+//@ func newChecker
+//@   overflow
+//@   requires o != nil
+//@   ensures[fields] result != nil && fresh(result) && result.max == (o.MaxElements > 0) && result.pageSize == o.MaxElements && result.paddedPageSize == o.MaxElements * o.Offset && result.o == o && result.op == op
+//@   ensures[anchor] wfChecker(result)
+
+//@ func (c *checker) CheckGlobalTimeBounds
+//@   requires wfChecker(c) && p != nil
+//@   ensures[matches-and-window] result <==> (Pmatch(c.op, p) && InWindow(c.o, p))
+
+//@ func (c *checker) CheckLimitAndUpdate
+//@   requires c != nil
+//@   modifies c.pageSize, c.paddedPageSize
+//@   ensures[page-exhausted] old(c.max && c.pageSize <= 0) ==> !result && c.pageSize == old(c.pageSize) && c.paddedPageSize == old(c.paddedPageSize)
+//@   ensures[skipping] !old(c.max && c.pageSize <= 0) && old(c.paddedPageSize) > 0 ==> !result && c.pageSize == old(c.pageSize) && c.paddedPageSize == old(c.paddedPageSize) - 1
+//@   ensures[taking] !old(c.max && c.pageSize <= 0) && old(c.paddedPageSize) <= 0 ==> result && c.pageSize == old(c.pageSize) - 1 && c.paddedPageSize == old(c.paddedPageSize)
+
+//@ func applyGlobalTimeBounds
+//@   opt terminates
+//@   opt strings opaque
+//@   requires wfChecker(ckr)
+//@   requires[stored-triples-well-formed] forall u string :: {trpls[u]} has(trpls, u) && trpls[u] != nil ==> trpls[u].p != nil
+//@   ensures[fresh] result != nil && fresh(result)
+//@   ensures[exactly-the-matching-ones] forall u string :: {has(result, u)} has(result, u) <==> (has(trpls, u) && trpls[u] != nil && Pmatch(ckr.op, trpls[u].p) && InWindow(ckr.o, trpls[u].p))
+//@   ensures[same-triples] forall u string :: {result[u]} has(result, u) ==> result[u] == trpls[u]
+//@   loop 0 invariant[exactly-the-matching-visited] forall u string :: {has(selectedTrpls, u)} has(selectedTrpls, u) <==> ($vis[u] && has(trpls, u) && trpls[u] != nil && Pmatch(ckr.op, trpls[u].p) && InWindow(ckr.o, trpls[u].p))
+//@   loop 0 invariant[same-triples] forall u string :: {selectedTrpls[u]} has(selectedTrpls, u) ==> selectedTrpls[u] == trpls[u]
+//@   loop 0 invariant[fresh] selectedTrpls != nil && fresh(selectedTrpls) && selectedTrpls != trpls
+
+// ---- Filter functions (C09) ------------------------------------------------------------------
+// The predicate a filter looks at: the triple's predicate, or its object when that is a predicate.
+//@ spec macro fpred(t *triple.Triple, f filter.Field) *predicate.Predicate = ite(f == filter.PredicateField, t.p, t.o.p)
+//@ spec macro qmatch(q *predicate.Predicate, t *triple.Triple) Bool = q == nil || pstr(q) == pstr(t.p)
+//@ spec macro keyedByUUID(mt map[string]*triple.Triple) Bool = forall u string :: {mt[u]} has(mt, u) ==> wfTriple(mt[u]) && tu(mt[u]) == u
+
+//@ props C09
+//@ func isImmutableFilter
+//@   opt terminates
+//@   opt strings opaque
+//@   requires filterOptions != nil && keyedByUUID(memoryTriples)
+//@   ensures[bad-field-is-an-error] (result1 != nil) <==> (filterOptions.Field != filter.PredicateField && filterOptions.Field != filter.ObjectField)
+//@   ensures[value-or-error] (result0 != nil && result1 == nil) || (result0 == nil && result1 != nil)
+//@   ensures[fresh] result0 != nil ==> fresh(result0)
+//@   ensures[exactly-the-immutable-ones] result1 == nil ==> forall u string :: {has(result0, hexu(u))} has(result0, hexu(u)) <==> (has(memoryTriples, u) && qmatch(pQuery, memoryTriples[u]) && fpred(memoryTriples[u], filterOptions.Field) != nil && fpred(memoryTriples[u], filterOptions.Field).anchor == nil)
+//@   ensures[same-triples] result1 == nil ==> forall u string :: {result0[hexu(u)]} has(result0, hexu(u)) ==> result0[hexu(u)] == memoryTriples[u]
+//@   ensures[only-uuid-keys] result1 == nil ==> forall k string :: {has(result0, k)} has(result0, k) ==> exists u string :: {hexu(u)} k == hexu(u)
+//@   loop 0 invariant[fresh] trps != nil && fresh(trps) && trps != memoryTriples && (filterOptions.Field == filter.PredicateField || filterOptions.Field == filter.ObjectField)
+//@   loop 0 invariant[exactly-the-immutable-visited] forall u string :: {has(trps, hexu(u))} has(trps, hexu(u)) <==> ($vis[u] && has(memoryTriples, u) && qmatch(pQuery, memoryTriples[u]) && fpred(memoryTriples[u], filterOptions.Field) != nil && fpred(memoryTriples[u], filterOptions.Field).anchor == nil)
+//@   loop 0 invariant[same-triples] forall u string :: {trps[hexu(u)]} has(trps, hexu(u)) ==> trps[hexu(u)] == memoryTriples[u]
+//@   loop 0 invariant[only-uuid-keys] forall k string :: {has(trps, k)} has(trps, k) ==> exists u string :: {hexu(u)} k == hexu(u)
+
+//@ func isTemporalFilter
+//@   opt terminates
+//@   opt strings opaque
+//@   requires filterOptions != nil && keyedByUUID(memoryTriples)
+//@   ensures[bad-field-is-an-error] (result1 != nil) <==> (filterOptions.Field != filter.PredicateField && filterOptions.Field != filter.ObjectField)
+//@   ensures[value-or-error] (result0 != nil && result1 == nil) || (result0 == nil && result1 != nil)
+//@   ensures[fresh] result0 != nil ==> fresh(result0)
+//@   ensures[exactly-the-temporal-ones] result1 == nil ==> forall u string :: {has(result0, hexu(u))} has(result0, hexu(u)) <==> (has(memoryTriples, u) && qmatch(pQuery, memoryTriples[u]) && fpred(memoryTriples[u], filterOptions.Field) != nil && fpred(memoryTriples[u], filterOptions.Field).anchor != nil)
+//@   ensures[same-triples] result1 == nil ==> forall u string :: {result0[hexu(u)]} has(result0, hexu(u)) ==> result0[hexu(u)] == memoryTriples[u]
+//@   ensures[only-uuid-keys] result1 == nil ==> forall k string :: {has(result0, k)} has(result0, k) ==> exists u string :: {hexu(u)} k == hexu(u)
+//@   loop 0 invariant[fresh] trps != nil && fresh(trps) && trps != memoryTriples && (filterOptions.Field == filter.PredicateField || filterOptions.Field == filter.ObjectField)
+//@   loop 0 invariant[exactly-the-temporal-visited] forall u string :: {has(trps, hexu(u))} has(trps, hexu(u)) <==> ($vis[u] && has(memoryTriples, u) && qmatch(pQuery, memoryTriples[u]) && fpred(memoryTriples[u], filterOptions.Field) != nil && fpred(memoryTriples[u], filterOptions.Field).anchor != nil)
+//@   loop 0 invariant[same-triples] forall u string :: {trps[hexu(u)]} has(trps, hexu(u)) ==> trps[hexu(u)] == memoryTriples[u]
+//@   loop 0 invariant[only-uuid-keys] forall k string :: {has(trps, k)} has(trps, k) ==> exists u string :: {hexu(u)} k == hexu(u)
+
+//@ func executeFilter
+//@   opt strings opaque
+//@   requires filterOptions != nil && keyedByUUID(memoryTriples)
+//@   ensures[value-or-error] (result0 != nil && result1 == nil) || (result0 == nil && result1 != nil)
+//@   ensures[fresh] result0 != nil ==> fresh(result0)
+//@   ensures[unknown-operation-is-an-error] (filterOptions.Operation != filter.Latest && filterOptions.Operation != filter.IsImmutable && filterOptions.Operation != filter.IsTemporal) ==> result1 != nil
+//@   ensures[subset] result1 == nil ==> forall k string :: {has(result0, k)} has(result0, k) ==> exists u string :: {hexu(u)} k == hexu(u) && has(memoryTriples, u) && result0[k] == memoryTriples[u] && qmatch(pQuery, memoryTriples[u])
+//@   ensures[isImmutable] result1 == nil && filterOptions.Operation == filter.IsImmutable ==> forall u string :: {has(result0, hexu(u))} has(result0, hexu(u)) <==> (has(memoryTriples, u) && qmatch(pQuery, memoryTriples[u]) && fpred(memoryTriples[u], filterOptions.Field) != nil && fpred(memoryTriples[u], filterOptions.Field).anchor == nil)
+//@   ensures[isTemporal] result1 == nil && filterOptions.Operation == filter.IsTemporal ==> forall u string :: {has(result0, hexu(u))} has(result0, hexu(u)) <==> (has(memoryTriples, u) && qmatch(pQuery, memoryTriples[u]) && fpred(memoryTriples[u], filterOptions.Field) != nil && fpred(memoryTriples[u], filterOptions.Field).anchor != nil)
+
+// latest: soundness part (every result is a temporal candidate of the input, unchanged). The
+// maximality/completeness part of the property is stated separately below.
+//@ func latestFilter
+//@   opt terminates
+//@   opt strings opaque
+//@   requires filterOptions != nil && keyedByUUID(memoryTriples)
+//@   ensures[bad-field-is-an-error] (filterOptions.Field != filter.PredicateField && filterOptions.Field != filter.ObjectField) ==> result1 != nil
+//@   ensures[value-or-error] (result0 != nil && result1 == nil) || (result0 == nil && result1 != nil)
+//@   ensures[fresh] result0 != nil ==> fresh(result0)
+//@   ensures[only-temporal-candidates] result1 == nil ==> forall k string :: {has(result0, k)} has(result0, k) ==> exists u string :: {hexu(u)} k == hexu(u) && has(memoryTriples, u) && result0[k] == memoryTriples[u] && qmatch(pQuery, memoryTriples[u]) && fpred(memoryTriples[u], filterOptions.Field) != nil && fpred(memoryTriples[u], filterOptions.Field).anchor != nil
+//@   loop 0 invariant[fresh] trps != nil && fresh(trps) && lastTA != nil && fresh(lastTA) && (filterOptions.Field == filter.PredicateField || filterOptions.Field == filter.ObjectField)
+//@   loop 0 invariant[groups-have-anchors] forall g string :: {lastTA[g]} has(lastTA, g) && lastTA[g] != nil ==> has(trps, g)
+//@   loop 0 invariant[groups-owned] forall g string :: {trps[g]} has(trps, g) ==> trps[g] != nil && allocated(trps[g]) && fresh(trps[g]) && parent(trps[g]) == trps && pkey(trps[g]) == g
+//@   loop 0 invariant[only-temporal-candidates] forall g string, k string :: {has(trps[g], k)} has(trps, g) && has(trps[g], k) ==> exists u string :: {hexu(u)} k == hexu(u) && has(memoryTriples, u) && trps[g][k] == memoryTriples[u] && qmatch(pQuery, memoryTriples[u]) && fpred(memoryTriples[u], filterOptions.Field) != nil && fpred(memoryTriples[u], filterOptions.Field).anchor != nil
+//@   loop 1 invariant[fresh] trpsByUUID != nil && fresh(trpsByUUID)
+//@   loop 1 invariant[only-temporal-candidates] forall k string :: {has(trpsByUUID, k)} has(trpsByUUID, k) ==> exists u string :: {hexu(u)} k == hexu(u) && has(memoryTriples, u) && trpsByUUID[k] == memoryTriples[u] && qmatch(pQuery, memoryTriples[u]) && fpred(memoryTriples[u], filterOptions.Field) != nil && fpred(memoryTriples[u], filterOptions.Field).anchor != nil
+//@   loop 2 invariant[fresh] trpsByUUID != nil && fresh(trpsByUUID)
+//@   loop 2 invariant[only-temporal-candidates] forall k string :: {has(trpsByUUID, k)} has(trpsByUUID, k) ==> exists u string :: {hexu(u)} k == hexu(u) && has(memoryTriples, u) && trpsByUUID[k] == memoryTriples[u] && qmatch(pQuery, memoryTriples[u]) && fpred(memoryTriples[u], filterOptions.Field) != nil && fpred(memoryTriples[u], filterOptions.Field).anchor != nil
+
+// ---- Ordering and emission (C02, C09) ------------------------------------------------------------
+//@ props C02 C09
+//@ func SortByString
+//@   opt terminates
+//@   opt strings opaque
+//@   requires st != nil && strObs != nil
+//@   requires[triples-non-nil] forall u string :: {selectedTrpls[u]} has(selectedTrpls, u) ==> selectedTrpls[u] != nil
+//@   modifies contents(st), deref(strObs)
+//@   ensures[nil-input-is-an-error] (result != nil) <==> selectedTrpls == nil
+//@   ensures[st-gets-the-triples] result == nil ==> forall u string :: {selectedTrpls[u]} has(selectedTrpls, u) ==> has(st, tstr(selectedTrpls[u])) && tstr(st[tstr(selectedTrpls[u])]) == tstr(selectedTrpls[u])
+//@   ensures[st-only-from-input] result == nil ==> forall x string :: {has(st, x)} has(st, x) ==> old(has(st, x)) || exists u string :: {selectedTrpls[u]} has(selectedTrpls, u) && st[x] == selectedTrpls[u] && x == tstr(selectedTrpls[u])
+//@   ensures[strings-only-from-input] result == nil ==> forall j int :: {deref(strObs)[j]} 0 <= j && j < len(deref(strObs)) ==> (exists i int :: {old(deref(strObs))[i]} 0 <= i && i < old(len(deref(strObs))) && deref(strObs)[j] == old(deref(strObs))[i]) || (exists u string :: {selectedTrpls[u]} has(selectedTrpls, u) && deref(strObs)[j] == tstr(selectedTrpls[u]))
+//@   ensures[every-triple-listed] result == nil ==> forall u string :: {selectedTrpls[u]} has(selectedTrpls, u) ==> exists j int :: {deref(strObs)[j]} 0 <= j && j < len(deref(strObs)) && deref(strObs)[j] == tstr(selectedTrpls[u])
+//@   loop 0 invariant[non-nil] selectedTrpls != nil
+//@   loop 0 invariant[st-gets-the-visited] forall u string :: {selectedTrpls[u]} $vis[u] ==> has(st, tstr(selectedTrpls[u])) && tstr(st[tstr(selectedTrpls[u])]) == tstr(selectedTrpls[u])
+//@   loop 0 invariant[st-only-from-input] forall x string :: {has(st, x)} has(st, x) ==> old(has(st, x)) || exists u string :: {selectedTrpls[u]} has(selectedTrpls, u) && st[x] == selectedTrpls[u] && x == tstr(selectedTrpls[u])
+//@   loop 0 invariant[strings-only-from-input] forall j int :: {deref(strObs)[j]} 0 <= j && j < len(deref(strObs)) ==> (j < old(len(deref(strObs))) && deref(strObs)[j] == old(deref(strObs))[j]) || (exists u string :: {selectedTrpls[u]} has(selectedTrpls, u) && deref(strObs)[j] == tstr(selectedTrpls[u]))
+//@   loop 0 invariant[every-visited-listed] forall u string :: {selectedTrpls[u]} $vis[u] ==> exists j int :: {deref(strObs)[j]} 0 <= j && j < len(deref(strObs)) && deref(strObs)[j] == tstr(selectedTrpls[u])
+//@   loop 0 invariant[len] len(deref(strObs)) >= old(len(deref(strObs)))
+
+// ---- Lookups (C02): soundness ----------------------------------------------------------------------
+// Every value sent by a lookup is the corresponding part of a triple that is stored in the graph,
+// agrees with the given components on their UUIDs, matches the given predicate in kind and instant
+// and lies inside the time window; the graph's maps are not modified (they are not in `modifies`);
+// the channel is closed exactly once; the lookup options are as before when the lookup returns.
+//@ props C02 C07 C09
+
+//@ func (m *memory) Objects
+//@   opt terminates
+//@   opt strings opaque
+//@   opt axioms uuid-length
+//@   requires Shape(m) && I1(m) && OwnSP(m) && I2SP(m) && I3SP(m) && m.#lock_rwmu == 0
+//@   requires wfNode(s) && p != nil && lo != nil && (objs != nil ==> objs.#closed == 0)
+//@   modifies m.#lock_rwmu, objs.#out, objs.#closed, lo.FilterOptions
+//@   ensures[lock-released] m.#lock_rwmu == 0
+//@   ensures[nil-channel-is-an-error] objs == nil ==> result != nil
+//@   ensures[closed-once] objs != nil ==> objs.#closed == 1
+//@   ensures[options-restored] lo.FilterOptions == old(lo.FilterOptions)
+//@   nowrite[C07] lo.FilterOptions
+//@   ensures[sound] forall j int :: {objs.#out[j]} old(objs.#len) <= j && j < objs.#len ==> exists u string :: {m.idx[u]} has(m.idx, u) && su(m.idx[u].s) == su(s) && ppu(m.idx[u].p) == ppu(p) && Pmatch(p, m.idx[u].p) && InWindow(lo, m.idx[u].p) && objs.#out[j] == m.idx[u].o
+//@   loop 0 invariant[state] m.#lock_rwmu == 1 && objs != nil && objs.#closed == 0 && objs.#len >= old(objs.#len) && ckr != nil && st != nil && fresh(st) && fresh(ckr)
+//@   loop 0 invariant[sound] forall j int :: {objs.#out[j]} old(objs.#len) <= j && j < objs.#len ==> exists u string :: {m.idx[u]} has(m.idx, u) && su(m.idx[u].s) == su(s) && ppu(m.idx[u].p) == ppu(p) && Pmatch(p, m.idx[u].p) && InWindow(lo, m.idx[u].p) && objs.#out[j] == m.idx[u].o
+//@   loop 0 invariant[st-holds-selected] forall x string :: {has(st, x)} has(st, x) ==> st[x] != nil && exists u string :: {m.idx[u]} has(m.idx, u) && st[x] == m.idx[u] && su(m.idx[u].s) == su(s) && ppu(m.idx[u].p) == ppu(p) && Pmatch(p, m.idx[u].p) && InWindow(lo, m.idx[u].p)
+//@   loop 0 invariant[strings-in-st] forall j int :: {strObs[j]} 0 <= j && j < len(strObs) ==> has(st, strObs[j])
+
+//@ func (m *memory) Subjects
+//@   opt terminates
+//@   opt strings opaque
+//@   opt axioms uuid-length
+//@   requires Shape(m) && I1(m) && OwnPO(m) && I2PO(m) && I3PO(m) && m.#lock_rwmu == 0
+//@   requires p != nil && wfObj(o) && lo != nil && (subjs != nil ==> subjs.#closed == 0)
+//@   modifies m.#lock_rwmu, subjs.#out, subjs.#closed, lo.FilterOptions
+//@   ensures[lock-released] m.#lock_rwmu == 0
+//@   ensures[nil-channel-is-an-error] subjs == nil ==> result != nil
+//@   ensures[closed-once] subjs != nil ==> subjs.#closed == 1
+//@   ensures[options-restored] lo.FilterOptions == old(lo.FilterOptions)
+//@   nowrite[C07] lo.FilterOptions
+//@   ensures[sound] forall j int :: {subjs.#out[j]} old(subjs.#len) <= j && j < subjs.#len ==> exists u string :: {m.idx[u]} has(m.idx, u) && ppu(m.idx[u].p) == ppu(p) && ou(m.idx[u].o) == ou(o) && Pmatch(p, m.idx[u].p) && InWindow(lo, m.idx[u].p) && subjs.#out[j] == m.idx[u].s
+//@   loop 0 invariant[state] m.#lock_rwmu == 1 && subjs != nil && subjs.#closed == 0 && subjs.#len >= old(subjs.#len) && ckr != nil && st != nil && fresh(st) && fresh(ckr)
+//@   loop 0 invariant[sound] forall j int :: {subjs.#out[j]} old(subjs.#len) <= j && j < subjs.#len ==> exists u string :: {m.idx[u]} has(m.idx, u) && ppu(m.idx[u].p) == ppu(p) && ou(m.idx[u].o) == ou(o) && Pmatch(p, m.idx[u].p) && InWindow(lo, m.idx[u].p) && subjs.#out[j] == m.idx[u].s
+//@   loop 0 invariant[st-holds-selected] forall x string :: {has(st, x)} has(st, x) ==> st[x] != nil && exists u string :: {m.idx[u]} has(m.idx, u) && st[x] == m.idx[u] && ppu(m.idx[u].p) == ppu(p) && ou(m.idx[u].o) == ou(o) && Pmatch(p, m.idx[u].p) && InWindow(lo, m.idx[u].p)
+//@   loop 0 invariant[strings-in-st] forall j int :: {strSubs[j]} 0 <= j && j < len(strSubs) ==> has(st, strSubs[j])
+
+//@ func (m *memory) PredicatesForSubjectAndObject
+//@   opt terminates
+//@   opt strings opaque
+//@   opt axioms uuid-length
+//@   requires Shape(m) && I1(m) && OwnSO(m) && I2SO(m) && I3SO(m) && m.#lock_rwmu == 0
+//@   requires wfNode(s) && wfObj(o) && lo != nil && (prds != nil ==> prds.#closed == 0)
+//@   modifies m.#lock_rwmu, prds.#out, prds.#closed, lo.FilterOptions
+//@   ensures[lock-released] m.#lock_rwmu == 0
+//@   ensures[nil-channel-is-an-error] prds == nil ==> result != nil
+//@   ensures[closed-once] prds != nil ==> prds.#closed == 1
+//@   ensures[options-restored] lo.FilterOptions == old(lo.FilterOptions)
+//@   nowrite[C07] lo.FilterOptions
+//@   ensures[sound] forall j int :: {prds.#out[j]} old(prds.#len) <= j && j < prds.#len ==> exists u string :: {m.idx[u]} has(m.idx, u) && su(m.idx[u].s) == su(s) && ou(m.idx[u].o) == ou(o) && true && InWindow(lo, m.idx[u].p) && prds.#out[j] == m.idx[u].p
+//@   loop 0 invariant[state] m.#lock_rwmu == 1 && prds != nil && prds.#closed == 0 && prds.#len >= old(prds.#len) && ckr != nil && st != nil && fresh(st) && fresh(ckr)
+//@   loop 0 invariant[sound] forall j int :: {prds.#out[j]} old(prds.#len) <= j && j < prds.#len ==> exists u string :: {m.idx[u]} has(m.idx, u) && su(m.idx[u].s) == su(s) && ou(m.idx[u].o) == ou(o) && true && InWindow(lo, m.idx[u].p) && prds.#out[j] == m.idx[u].p
+//@   loop 0 invariant[st-holds-selected] forall x string :: {has(st, x)} has(st, x) ==> st[x] != nil && exists u string :: {m.idx[u]} has(m.idx, u) && st[x] == m.idx[u] && su(m.idx[u].s) == su(s) && ou(m.idx[u].o) == ou(o) && true && InWindow(lo, m.idx[u].p)
+//@   loop 0 invariant[strings-in-st] forall j int :: {strPrds[j]} 0 <= j && j < len(strPrds) ==> has(st, strPrds[j])
+
+//@ func (m *memory) PredicatesForSubject
+//@   opt terminates
+//@   opt strings opaque
+//@   opt axioms uuid-length
+//@   requires Shape(m) && I1(m) && OwnS(m) && I2S(m) && I3S(m) && m.#lock_rwmu == 0
+//@   requires wfNode(s) && lo != nil && (prds != nil ==> prds.#closed == 0)
+//@   modifies m.#lock_rwmu, prds.#out, prds.#closed, lo.FilterOptions
+//@   ensures[lock-released] m.#lock_rwmu == 0
+//@   ensures[nil-channel-is-an-error] prds == nil ==> result != nil
+//@   ensures[closed-once] prds != nil ==> prds.#closed == 1
+//@   ensures[options-restored] lo.FilterOptions == old(lo.FilterOptions)
+//@   nowrite[C07] lo.FilterOptions
+//@   ensures[sound] forall j int :: {prds.#out[j]} old(prds.#len) <= j && j < prds.#len ==> exists u string :: {m.idx[u]} has(m.idx, u) && su(m.idx[u].s) == su(s) && true && InWindow(lo, m.idx[u].p) && prds.#out[j] == m.idx[u].p
+//@   loop 0 invariant[state] m.#lock_rwmu == 1 && prds != nil && prds.#closed == 0 && prds.#len >= old(prds.#len) && ckr != nil && st != nil && fresh(st) && fresh(ckr)
+//@   loop 0 invariant[sound] forall j int :: {prds.#out[j]} old(prds.#len) <= j && j < prds.#len ==> exists u string :: {m.idx[u]} has(m.idx, u) && su(m.idx[u].s) == su(s) && true && InWindow(lo, m.idx[u].p) && prds.#out[j] == m.idx[u].p
+//@   loop 0 invariant[st-holds-selected] forall x string :: {has(st, x)} has(st, x) ==> st[x] != nil && exists u string :: {m.idx[u]} has(m.idx, u) && st[x] == m.idx[u] && su(m.idx[u].s) == su(s) && true && InWindow(lo, m.idx[u].p)
+//@   loop 0 invariant[strings-in-st] forall j int :: {strPrds[j]} 0 <= j && j < len(strPrds) ==> has(st, strPrds[j])
+
+//@ func (m *memory) PredicatesForObject
+//@   opt terminates
+//@   opt strings opaque
+//@   opt axioms uuid-length
+//@   requires Shape(m) && I1(m) && OwnO(m) && I2O(m) && I3O(m) && m.#lock_rwmu == 0
+//@   requires wfObj(o) && lo != nil && (prds != nil ==> prds.#closed == 0)
+//@   modifies m.#lock_rwmu, prds.#out, prds.#closed, lo.FilterOptions
+//@   ensures[lock-released] m.#lock_rwmu == 0
+//@   ensures[nil-channel-is-an-error] prds == nil ==> result != nil
+//@   ensures[closed-once] prds != nil ==> prds.#closed == 1
+//@   ensures[options-restored] lo.FilterOptions == old(lo.FilterOptions)
+//@   nowrite[C07] lo.FilterOptions
+//@   ensures[sound] forall j int :: {prds.#out[j]} old(prds.#len) <= j && j < prds.#len ==> exists u string :: {m.idx[u]} has(m.idx, u) && ou(m.idx[u].o) == ou(o) && true && InWindow(lo, m.idx[u].p) && prds.#out[j] == m.idx[u].p
+//@   loop 0 invariant[state] m.#lock_rwmu == 1 && prds != nil && prds.#closed == 0 && prds.#len >= old(prds.#len) && ckr != nil && st != nil && fresh(st) && fresh(ckr)
+//@   loop 0 invariant[sound] forall j int :: {prds.#out[j]} old(prds.#len) <= j && j < prds.#len ==> exists u string :: {m.idx[u]} has(m.idx, u) && ou(m.idx[u].o) == ou(o) && true && InWindow(lo, m.idx[u].p) && prds.#out[j] == m.idx[u].p
+//@   loop 0 invariant[st-holds-selected] forall x string :: {has(st, x)} has(st, x) ==> st[x] != nil && exists u string :: {m.idx[u]} has(m.idx, u) && st[x] == m.idx[u] && ou(m.idx[u].o) == ou(o) && true && InWindow(lo, m.idx[u].p)
+//@   loop 0 invariant[strings-in-st] forall j int :: {strPrds[j]} 0 <= j && j < len(strPrds) ==> has(st, strPrds[j])
+
+//@ func (m *memory) TriplesForSubject
+//@   opt terminates
+//@   opt strings opaque
+//@   opt axioms uuid-length
+//@   requires Shape(m) && I1(m) && OwnS(m) && I2S(m) && I3S(m) && m.#lock_rwmu == 0
+//@   requires wfNode(s) && lo != nil && (trpls != nil ==> trpls.#closed == 0)
+//@   modifies m.#lock_rwmu, trpls.#out, trpls.#closed, lo.FilterOptions
+//@   ensures[lock-released] m.#lock_rwmu == 0
+//@   ensures[nil-channel-is-an-error] trpls == nil ==> result != nil
+//@   ensures[closed-once] trpls != nil ==> trpls.#closed == 1
+//@   ensures[options-restored] lo.FilterOptions == old(lo.FilterOptions)
+//@   nowrite[C07] lo.FilterOptions
+//@   ensures[sound] forall j int :: {trpls.#out[j]} old(trpls.#len) <= j && j < trpls.#len ==> exists u string :: {m.idx[u]} has(m.idx, u) && su(m.idx[u].s) == su(s) && true && InWindow(lo, m.idx[u].p) && trpls.#out[j] == m.idx[u]
+//@   loop 0 invariant[state] m.#lock_rwmu == 1 && trpls != nil && trpls.#closed == 0 && trpls.#len >= old(trpls.#len) && ckr != nil && st != nil && fresh(st) && fresh(ckr)
+//@   loop 0 invariant[sound] forall j int :: {trpls.#out[j]} old(trpls.#len) <= j && j < trpls.#len ==> exists u string :: {m.idx[u]} has(m.idx, u) && su(m.idx[u].s) == su(s) && true && InWindow(lo, m.idx[u].p) && trpls.#out[j] == m.idx[u]
+//@   loop 0 invariant[st-holds-selected] forall x string :: {has(st, x)} has(st, x) ==> st[x] != nil && exists u string :: {m.idx[u]} has(m.idx, u) && st[x] == m.idx[u] && su(m.idx[u].s) == su(s) && true && InWindow(lo, m.idx[u].p)
+//@   loop 0 invariant[strings-in-st] forall j int :: {strTrpls[j]} 0 <= j && j < len(strTrpls) ==> has(st, strTrpls[j])
+
+//@ func (m *memory) TriplesForPredicate
+//@   opt terminates
+//@   opt strings opaque
+//@   opt axioms uuid-length
+//@   requires Shape(m) && I1(m) && OwnP(m) && I2P(m) && I3P(m) && m.#lock_rwmu == 0
+//@   requires p != nil && lo != nil && (trpls != nil ==> trpls.#closed == 0)
+//@   modifies m.#lock_rwmu, trpls.#out, trpls.#closed, lo.FilterOptions
+//@   ensures[lock-released] m.#lock_rwmu == 0
+//@   ensures[nil-channel-is-an-error] trpls == nil ==> result != nil
+//@   ensures[closed-once] trpls != nil ==> trpls.#closed == 1
+//@   ensures[options-restored] lo.FilterOptions == old(lo.FilterOptions)
+//@   nowrite[C07] lo.FilterOptions
+//@   ensures[sound] forall j int :: {trpls.#out[j]} old(trpls.#len) <= j && j < trpls.#len ==> exists u string :: {m.idx[u]} has(m.idx, u) && ppu(m.idx[u].p) == ppu(p) && Pmatch(p, m.idx[u].p) && InWindow(lo, m.idx[u].p) && trpls.#out[j] == m.idx[u]
+//@   loop 0 invariant[state] m.#lock_rwmu == 1 && trpls != nil && trpls.#closed == 0 && trpls.#len >= old(trpls.#len) && ckr != nil && st != nil && fresh(st) && fresh(ckr)
+//@   loop 0 invariant[sound] forall j int :: {trpls.#out[j]} old(trpls.#len) <= j && j < trpls.#len ==> exists u string :: {m.idx[u]} has(m.idx, u) && ppu(m.idx[u].p) == ppu(p) && Pmatch(p, m.idx[u].p) && InWindow(lo, m.idx[u].p) && trpls.#out[j] == m.idx[u]
+//@   loop 0 invariant[st-holds-selected] forall x string :: {has(st, x)} has(st, x) ==> st[x] != nil && exists u string :: {m.idx[u]} has(m.idx, u) && st[x] == m.idx[u] && ppu(m.idx[u].p) == ppu(p) && Pmatch(p, m.idx[u].p) && InWindow(lo, m.idx[u].p)
+//@   loop 0 invariant[strings-in-st] forall j int :: {strTrpls[j]} 0 <= j && j < len(strTrpls) ==> has(st, strTrpls[j])
+
+//@ func (m *memory) TriplesForObject
+//@   opt terminates
+//@   opt strings opaque
+//@   opt axioms uuid-length
+//@   requires Shape(m) && I1(m) && OwnO(m) && I2O(m) && I3O(m) && m.#lock_rwmu == 0
+//@   requires wfObj(o) && lo != nil && (trpls != nil ==> trpls.#closed == 0)
+//@   modifies m.#lock_rwmu, trpls.#out, trpls.#closed, lo.FilterOptions
+//@   ensures[lock-released] m.#lock_rwmu == 0
+//@   ensures[nil-channel-is-an-error] trpls == nil ==> result != nil
+//@   ensures[closed-once] trpls != nil ==> trpls.#closed == 1
+//@   ensures[options-restored] lo.FilterOptions == old(lo.FilterOptions)
+//@   nowrite[C07] lo.FilterOptions
+//@   ensures[sound] forall j int :: {trpls.#out[j]} old(trpls.#len) <= j && j < trpls.#len ==> exists u string :: {m.idx[u]} has(m.idx, u) && ou(m.idx[u].o) == ou(o) && true && InWindow(lo, m.idx[u].p) && trpls.#out[j] == m.idx[u]
+//@   loop 0 invariant[state] m.#lock_rwmu == 1 && trpls != nil && trpls.#closed == 0 && trpls.#len >= old(trpls.#len) && ckr != nil && st != nil && fresh(st) && fresh(ckr)
+//@   loop 0 invariant[sound] forall j int :: {trpls.#out[j]} old(trpls.#len) <= j && j < trpls.#len ==> exists u string :: {m.idx[u]} has(m.idx, u) && ou(m.idx[u].o) == ou(o) && true && InWindow(lo, m.idx[u].p) && trpls.#out[j] == m.idx[u]
+//@   loop 0 invariant[st-holds-selected] forall x string :: {has(st, x)} has(st, x) ==> st[x] != nil && exists u string :: {m.idx[u]} has(m.idx, u) && st[x] == m.idx[u] && ou(m.idx[u].o) == ou(o) && true && InWindow(lo, m.idx[u].p)
+//@   loop 0 invariant[strings-in-st] forall j int :: {strTrpls[j]} 0 <= j && j < len(strTrpls) ==> has(st, strTrpls[j])
+
+//@ func (m *memory) TriplesForSubjectAndPredicate
+//@   opt terminates
+//@   opt strings opaque
+//@   opt axioms uuid-length
+//@   requires Shape(m) && I1(m) && OwnSP(m) && I2SP(m) && I3SP(m) && m.#lock_rwmu == 0
+//@   requires wfNode(s) && p != nil && lo != nil && (trpls != nil ==> trpls.#closed == 0)
+//@   modifies m.#lock_rwmu, trpls.#out, trpls.#closed, lo.FilterOptions
+//@   ensures[lock-released] m.#lock_rwmu == 0
+//@   ensures[nil-channel-is-an-error] trpls == nil ==> result != nil
+//@   ensures[closed-once] trpls != nil ==> trpls.#closed == 1
+//@   ensures[options-restored] lo.FilterOptions == old(lo.FilterOptions)
+//@   nowrite[C07] lo.FilterOptions
+//@   ensures[sound] forall j int :: {trpls.#out[j]} old(trpls.#len) <= j && j < trpls.#len ==> exists u string :: {m.idx[u]} has(m.idx, u) && su(m.idx[u].s) == su(s) && ppu(m.idx[u].p) == ppu(p) && Pmatch(p, m.idx[u].p) && InWindow(lo, m.idx[u].p) && trpls.#out[j] == m.idx[u]
+//@   loop 0 invariant[state] m.#lock_rwmu == 1 && trpls != nil && trpls.#closed == 0 && trpls.#len >= old(trpls.#len) && ckr != nil && st != nil && fresh(st) && fresh(ckr)
+//@   loop 0 invariant[sound] forall j int :: {trpls.#out[j]} old(trpls.#len) <= j && j < trpls.#len ==> exists u string :: {m.idx[u]} has(m.idx, u) && su(m.idx[u].s) == su(s) && ppu(m.idx[u].p) == ppu(p) && Pmatch(p, m.idx[u].p) && InWindow(lo, m.idx[u].p) && trpls.#out[j] == m.idx[u]
+//@   loop 0 invariant[st-holds-selected] forall x string :: {has(st, x)} has(st, x) ==> st[x] != nil && exists u string :: {m.idx[u]} has(m.idx, u) && st[x] == m.idx[u] && su(m.idx[u].s) == su(s) && ppu(m.idx[u].p) == ppu(p) && Pmatch(p, m.idx[u].p) && InWindow(lo, m.idx[u].p)
+//@   loop 0 invariant[strings-in-st] forall j int :: {strTrpls[j]} 0 <= j && j < len(strTrpls) ==> has(st, strTrpls[j])
+
+//@ func (m *memory) TriplesForPredicateAndObject
+//@   opt terminates
+//@   opt strings opaque
+//@   opt axioms uuid-length
+//@   requires Shape(m) && I1(m) && OwnPO(m) && I2PO(m) && I3PO(m) && m.#lock_rwmu == 0
+//@   requires p != nil && wfObj(o) && lo != nil && (trpls != nil ==> trpls.#closed == 0)
+//@   modifies m.#lock_rwmu, trpls.#out, trpls.#closed, lo.FilterOptions
+//@   ensures[lock-released] m.#lock_rwmu == 0
+//@   ensures[nil-channel-is-an-error] trpls == nil ==> result != nil
+//@   ensures[closed-once] trpls != nil ==> trpls.#closed == 1
+//@   ensures[options-restored] lo.FilterOptions == old(lo.FilterOptions)
+//@   nowrite[C07] lo.FilterOptions
+//@   ensures[sound] forall j int :: {trpls.#out[j]} old(trpls.#len) <= j && j < trpls.#len ==> exists u string :: {m.idx[u]} has(m.idx, u) && ppu(m.idx[u].p) == ppu(p) && ou(m.idx[u].o) == ou(o) && Pmatch(p, m.idx[u].p) && InWindow(lo, m.idx[u].p) && trpls.#out[j] == m.idx[u]
+//@   loop 0 invariant[state] m.#lock_rwmu == 1 && trpls != nil && trpls.#closed == 0 && trpls.#len >= old(trpls.#len) && ckr != nil && st != nil && fresh(st) && fresh(ckr)
+//@   loop 0 invariant[sound] forall j int :: {trpls.#out[j]} old(trpls.#len) <= j && j < trpls.#len ==> exists u string :: {m.idx[u]} has(m.idx, u) && ppu(m.idx[u].p) == ppu(p) && ou(m.idx[u].o) == ou(o) && Pmatch(p, m.idx[u].p) && InWindow(lo, m.idx[u].p) && trpls.#out[j] == m.idx[u]
+//@   loop 0 invariant[st-holds-selected] forall x string :: {has(st, x)} has(st, x) ==> st[x] != nil && exists u string :: {m.idx[u]} has(m.idx, u) && st[x] == m.idx[u] && ppu(m.idx[u].p) == ppu(p) && ou(m.idx[u].o) == ou(o) && Pmatch(p, m.idx[u].p) && InWindow(lo, m.idx[u].p)
+//@   loop 0 invariant[strings-in-st] forall j int :: {strTrpls[j]} 0 <= j && j < len(strTrpls) ==> has(st, strTrpls[j])
+
+//@ func (m *memory) Triples
+//@   opt terminates
+//@   opt strings opaque
+//@   opt axioms uuid-length
+//@   requires Shape(m) && I1(m) && m.#lock_rwmu == 0
+//@   requires true && lo != nil && (trpls != nil ==> trpls.#closed == 0)
+//@   modifies m.#lock_rwmu, trpls.#out, trpls.#closed, lo.FilterOptions
+//@   ensures[lock-released] m.#lock_rwmu == 0
+//@   ensures[nil-channel-is-an-error] trpls == nil ==> result != nil
+//@   ensures[closed-once] trpls != nil ==> trpls.#closed == 1
+//@   ensures[options-restored] lo.FilterOptions == old(lo.FilterOptions)
+//@   nowrite[C07] lo.FilterOptions
+//@   ensures[sound] forall j int :: {trpls.#out[j]} old(trpls.#len) <= j && j < trpls.#len ==> exists u string :: {m.idx[u]} has(m.idx, u) && true && true && InWindow(lo, m.idx[u].p) && trpls.#out[j] == m.idx[u]
+//@   loop 0 invariant[state] m.#lock_rwmu == 1 && trpls != nil && trpls.#closed == 0 && trpls.#len >= old(trpls.#len) && ckr != nil && st != nil && fresh(st) && fresh(ckr)
+//@   loop 0 invariant[sound] forall j int :: {trpls.#out[j]} old(trpls.#len) <= j && j < trpls.#len ==> exists u string :: {m.idx[u]} has(m.idx, u) && true && true && InWindow(lo, m.idx[u].p) && trpls.#out[j] == m.idx[u]
+//@   loop 0 invariant[st-holds-selected] forall x string :: {has(st, x)} has(st, x) ==> st[x] != nil && exists u string :: {m.idx[u]} has(m.idx, u) && st[x] == m.idx[u] && true && true && InWindow(lo, m.idx[u].p)
+//@   loop 0 invariant[strings-in-st] forall j int :: {strTrpls[j]} 0 <= j && j < len(strTrpls) ==> has(st, strTrpls[j])
